@@ -1135,20 +1135,21 @@ func (app *App) init() *App {
 // the app, which if not set is the DefaultErrorHandler.
 func (app *App) ErrorHandler(ctx Ctx, err error) error {
 	var (
-		mountedErrHandler  ErrorHandler
-		mountedPrefixParts int
+		mountedErrHandler ErrorHandler
+		mountedPrefixLen  int
 	)
 
+	path := ctx.Path()
 	for prefix, subApp := range app.mountFields.appList {
-		if prefix != "" && strings.HasPrefix(ctx.Path(), prefix) {
-			parts := len(strings.Split(prefix, "/"))
-			if mountedPrefixParts <= parts {
-				if subApp.configured.ErrorHandler != nil {
-					mountedErrHandler = subApp.config.ErrorHandler
-				}
-
-				mountedPrefixParts = parts
-			}
+		if prefix == "" || subApp.configured.ErrorHandler == nil || !hasMountPrefix(path, prefix) {
+			continue
+		}
+		// Every candidate is a prefix of the same path, so two different candidates differ in
+		// length: the longest one is the innermost mounted app, in whatever order the map is
+		// iterated.
+		if len(prefix) > mountedPrefixLen {
+			mountedErrHandler = subApp.config.ErrorHandler
+			mountedPrefixLen = len(prefix)
 		}
 	}
 
@@ -1157,6 +1158,15 @@ func (app *App) ErrorHandler(ctx Ctx, err error) error {
 	}
 
 	return app.config.ErrorHandler(ctx, err)
+}
+
+// hasMountPrefix reports whether path lies inside the mount prefix, i.e. the prefix ends at a
+// path segment boundary ("/api" contains "/api" and "/api/x" but not "/api-v2/x").
+func hasMountPrefix(path, prefix string) bool {
+	if !strings.HasPrefix(path, prefix) {
+		return false
+	}
+	return len(path) == len(prefix) || prefix[len(prefix)-1] == '/' || path[len(prefix)] == '/'
 }
 
 // serverErrorHandler is a wrapper around the application's error handler method
